@@ -100,6 +100,8 @@ pub fn run(req: &RunRequest) -> Value {
             virt_cap: Duration::from_secs(600),
             world_oracles: vec!["c02."],
             panic_is_violation: true,
+            rlimit_as: None,
+            alloc_limit: None,
         };
         (setup, move || main(plan, slow_permille))
     })
